@@ -50,7 +50,7 @@ var c16Numbers = []struct {
 	name  string
 	exprs []string
 }{
-	{"0", []string{"0", "(1 - 1)", "(1 & 2)", "(0 | 0)", bn.BLen + "([])", bn.BRound + "(0.2)", bn.BAbs + "(0)", bn.BMin + "(0, 4)", "(5 ^ 5)", "(0 * 7)", "(8 % 4)", "(2097152 % 1048576)"}},
+	{"0", []string{"0", "(1 - 1)", "(1 & 2)", "(0 | 0)", bn.BLen + "([])", bn.BRound + "(0.2)", bn.BAbs + "(0)", bn.BMin + "(0, 4)", "(5 ^ 5)", "(0 * 7)", "(8 % 4)", "(2097152 % 1048576)", "(1 << 64)", "(3 << 70)", "(1 << 1000)", "(0 >> 64)", "(5 >> 64)"}},
 	{"3", []string{"3", "(1 + 2)", "(7 & 3)", "(3 | 0)", bn.BLen + "([0, 0, 0])", bn.BRound + "(3.2)", bn.BAbs + "(-3)", bn.BMin + "(3, 4)", "(6 >> 1)", "(9 / 3)", "[3][0]", "({n: 3}).n", "(11 % 8)", "(7 % 4)"}},
 	{"-1", []string{"(-1)", "(0 - 1)", "(~0)", "((-1) | 0)", bn.BRound + "(-0.6)", bn.BMax + "(-1, -2)", "(-(1))", "((-2) >> 1)"}},
 	{"1000000", []string{"1000000", "(999999 + 1)", "(1000 * 1000)", "(1000000 | 0)", "(1000000 & 1048575)", bn.BRound + "(1000000.2)", bn.BAbs + "(-1000000)", "(10 ** 6)", "(500000 << 1)", "(3097152 % 2097152)", "(1000000 % 2147483648)", "(1000000 % 1000001)"}},
@@ -174,6 +174,40 @@ func TestC16(t *testing.T) {
 				c.c16Group(s, "strings", fmt.Sprintf("%q", v), c16StringProducers(v), contexts, &k)
 			}
 			c.Ev.MarkExhaustive(fmt.Sprintf("%d contexts x 12 string values (incl. strings that are not NFC-stable) x every producer against the literal producer (8-10 producers each)", len(contexts)))
+		})
+		// integers beyond 2^53 that only the bitwise operators can produce exactly: the same value reached
+		// through every storage / call path must keep behaving as the directly computed one
+		c.Sub("exact-integers", func(s *Sub) {
+			var k int64
+			for _, e := range []string{"((1 << 62) | 1)", "(~(1 << 62))", "(~(1 << 63))", "((1 << 53) | 1)", "(1 << 63)"} {
+				ps := []c16Producer{
+					{name: "direct", expr: e},
+					{name: "or-zero", expr: "(" + e + " | 0)"},
+					{name: "and-self", expr: "(" + e + " & " + e + ")"},
+					{name: "double-complement", expr: "(~(~" + e + "))"},
+					{name: "element", expr: "[" + e + "][0]"},
+					{name: "nested-element", expr: "[[1, " + e + "]][0][1]"},
+					{name: "property-of-literal", expr: "({n: " + e + "}).n"},
+					{name: "nested-property", expr: "({o: {n: " + e + ", m: 2}}).o.n"},
+					{name: "listed-value", expr: bn.BValues + "({n: " + e + "})[0]"},
+					{name: "appended", expr: bn.BPush + "([], " + e + ")[0]"},
+					{name: "function-result", setup: bn.KwFun + " mkv() { " + bn.KwReturn + " " + e + "; }", expr: "mkv()"},
+					{name: "identity-function", setup: bn.KwFun + " same(q) { " + bn.KwReturn + " q; }", expr: "same(" + e + ")"},
+					{name: "two-returns", setup: bn.KwFun + " same(q) { " + bn.KwReturn + " q; } " + bn.KwFun + " twice(q) { " + bn.KwReturn + " same(same(q)); }", expr: "twice(" + e + ")"},
+					{name: "closure-getter", setup: bn.KwFun + " keepv(q) { " + bn.KwFun + " get() { " + bn.KwReturn + " q; } " + bn.KwReturn + " get; } " + bn.KwVar + " getter = keepv(" + e + ");", expr: "getter()"},
+					{name: "returned-from-loop", setup: bn.KwFun + " mkv() { " + bn.KwWhile + " (" + bn.KwTrue + ") { " + bn.KwReturn + " " + e + "; } }", expr: "mkv()"},
+					{name: "parameter", expr: e, param: true},
+					{name: "variable", setup: bn.KwVar + " held = " + e + ";", expr: "held"},
+					{name: "reassigned-variable", setup: bn.KwVar + " held = 0; held = " + e + ";", expr: "held"},
+					{name: "assigned-property", setup: bn.KwVar + " holder = {}; holder.w = " + e + ";", expr: "holder.w"},
+					{name: "stored-element", setup: bn.KwVar + " cell = [0]; cell[0] = " + e + ";", expr: "cell[0]"},
+					{name: "logical-or-result", expr: "(0 " + bn.KwOr + " " + e + ")"},
+					{name: "logical-and-result", expr: "(1 " + bn.KwAnd + " " + e + ")"},
+					{name: "grouped", expr: "((" + e + "))"},
+				}
+				c.c16Group(s, "exact-integers", e, ps, contexts, &k)
+			}
+			c.Ev.MarkExhaustive(fmt.Sprintf("%d contexts x 5 exact 64-bit integers x 23 access paths against the directly computed value", len(contexts)))
 		})
 		c.Sub("numbers", func(s *Sub) {
 			var k int64
